@@ -96,6 +96,7 @@ func VH_C10_depth2() {
 // A precise differential version: the action script is recorded per visit and replayed on a
 // flattened reference machine.
 type c10Rec struct {
+	innerCtx context.Context // the context an inner-flow node was given
 	store *SharedStore
 	ids   [10]int
 	acts  [10]Action
@@ -111,6 +112,14 @@ type c10RProbe struct {
 
 func (p *c10RProbe) Prep(ctx context.Context, s *SharedStore) (any, error) {
 	vAssert(s == p.r.store, "inner-node-sees-the-parents-store")
+	if p.id >= 10 && p.r.innerCtx == nil {
+		p.r.innerCtx = ctx
+	}
+	if p.id < 10 && p.r.innerCtx != nil {
+		// a flattened machine hands every node the run's context, which is still alive here
+		vAssert(p.r.innerCtx.Err() == nil, "context-given-to-inner-nodes-outlives-the-inner-flow")
+		vCover("inner-context-checked-after-the-inner-flow")
+	}
 	return nil, nil
 }
 func (p *c10RProbe) Exec(ctx context.Context, x any) (any, error) { return nil, nil }
